@@ -112,12 +112,29 @@ static uint64_t pos_index(const BT* t, const uint8_t* leaf, unsigned slot)
   return (uint64_t)-1;
 }
 
+/* -DFIX_SHAPE=<0|1|2> [-DFIX_RUSE=<root slotuse>]: one job per tree shape; assigned (not assumed) so that the pointer
+ * structure of the tree is concrete for the verifier (mutating operations run out of memory on a symbolic shape) */
+#ifdef FIX_SHAPE
+#ifdef FIX_RUSE
+#define FIX_SHAPE_ in_shape = FIX_SHAPE; N_USE(&in_root) = FIX_RUSE;
+#else
+#define FIX_SHAPE_ in_shape = FIX_SHAPE;
+#endif
+#else
+#define FIX_SHAPE_
+#endif
+/* -DFIX_FILLS=<digits>: fill degree of each leaf (leaf 0 = leftmost digit), assigned */
+#ifdef FIX_FILLS
+#define FIX_FILLS_ { unsigned code_ = FIX_FILLS; unsigned nl_ = (in_shape == 2 ? N_USE(&in_root) + 1 : 1); for (unsigned i_ = 0; i_ < nl_; i_++) { N_USE(lf[nl_ - 1 - i_]) = code_ % 10; code_ /= 10; } }
+#else
+#define FIX_FILLS_
+#endif
 /* ---- arbitrary tree of depth <= 2 in separately allocated nodes ---- */
 #define MK_TREE()                                                                                         \
   BT tr; INPUT(unsigned, in_shape); INPUT(Inner, in_root); INPUT_ARR(Leaf, in_leaf, IS + 1);               \
-  __CPROVER_assume(in_shape <= 2);                                                                        \
-  Leaf* lf[IS + 1]; for (unsigned i_ = 0; i_ <= IS; i_++) { lf[i_] = malloc(sizeof(Leaf)); __CPROVER_assume(lf[i_] != 0); *lf[i_] = in_leaf[i_]; } \
-  Inner* rt = malloc(sizeof(Inner)); __CPROVER_assume(rt != 0); *rt = in_root;                            \
+  FIX_SHAPE_ __CPROVER_assume(in_shape <= 2);                                                                        \
+  Leaf* lf[IS + 1]; for (unsigned i_ = 0; i_ <= IS; i_++) { lf[i_] = malloc(sizeof(Leaf)); __CPROVER_assume(lf[i_] != 0); *lf[i_] = in_leaf[i_]; N_LEVEL(lf[i_]) = 0; } FIX_FILLS_ \
+  Inner* rt = malloc(sizeof(Inner)); __CPROVER_assume(rt != 0); *rt = in_root; N_LEVEL(rt) = 1;          \
   for (unsigned i_ = 0; i_ <= IS; i_++) { I_CHILD(rt, i_) = (Node*)lf[i_]; L_PREV(lf[i_]) = i_ ? lf[i_ - 1] : 0; L_NEXT(lf[i_]) = (i_ < IS && i_ < N_USE(rt)) ? lf[i_ + 1] : 0; } \
   if (in_shape == 0) { ROOT(&tr) = 0; HEADL(&tr) = 0; TAILL(&tr) = 0; }                                    \
   else if (in_shape == 1) { __CPROVER_assume(N_LEVEL(lf[0]) == 0); ROOT(&tr) = (Node*)lf[0]; HEADL(&tr) = lf[0]; TAILL(&tr) = lf[0]; L_NEXT(lf[0]) = 0; } \
@@ -171,6 +188,30 @@ void HARNESS(void)
   CANARY();
 }
 
+#elif defined(OP_erase_iter)
+/* erase(iterator): exactly the designated element disappears */
+void c_erase_iter(BT* t, uint8_t* leaf, uint16_t slot, key_t_ k, key_t_ g, uint64_t cg, uint64_t ck, uint64_t sz, uint8_t* n0, uint8_t* n1, uint8_t* n2, uint8_t* n3, uint8_t* n4, uint8_t* n5)
+__CPROVER_requires(bt_wf(t) && pos_index(t, leaf, slot) != (uint64_t)-1 && slot < N_USE((Leaf*)leaf) && k == L_KEY((Leaf*)leaf, slot))
+__CPROVER_requires(cg == bt_count(t, g, 0) && ck == bt_count(t, k, 0) && sz == ST_SIZE(t) && ir_live_allocs == bt_nodes(t))
+BT_FRAME
+__CPROVER_ensures(bt_wf(t) && ST_SIZE(t) == sz - 1)
+__CPROVER_ensures(bt_count(t, g, 0) == ((!LESS(g, k) && !LESS(k, g)) ? ck - 1 : cg))
+__CPROVER_ensures(ir_live_allocs == bt_nodes(t))
+{ w_bt_erase_iter(t, leaf, slot); }
+void HARNESS(void)
+{
+  MK_TREE() INPUT(unsigned, in_li); INPUT(uint16_t, in_slot); INPUT(key_t_, in_g);
+#ifdef FIX_LI        /* one job per designated position (leaf number, slot): assigned, not assumed */
+  in_li = FIX_LI; in_slot = FIX_SLOT;
+#endif
+  __CPROVER_assume(in_shape != 0 && in_li <= IS);
+  Leaf* l = nth_leaf(&tr, in_li);
+  __CPROVER_assume(l != 0 && in_slot < N_USE(l));
+  key_t_ k = L_KEY(l, in_slot);
+  c_erase_iter(&tr, (uint8_t*)l, in_slot, k, in_g, bt_count(&tr, in_g, 0), bt_count(&tr, k, 0), ST_SIZE(&tr), NODE_VALS);
+  CANARY();
+}
+
 #elif defined(OP_lookup)
 /* exists / count / find / lower_bound / upper_bound / begin / end / size / empty against the view; nothing is modified */
 void c_lookup(BT* t, key_t_ k, struct Pos* p)
@@ -189,6 +230,8 @@ __CPROVER_ensures(pos_index(t, p->leaf, p->slot) ==
                    which == 0 ? bt_count(t, k, 1) : which == 1 ? bt_count(t, k, 2) :
                    which == 2 ? (bt_count(t, k, 0) > 0 ? bt_count(t, k, 1) : ST_SIZE(t)) : which == 3 ? 0 : ST_SIZE(t)))
 __CPROVER_ensures(ST_SIZE(t) != 0 || p->leaf == 0)
+/* the position is a canonical iterator: it designates an element, or it is end() = (tail leaf, one past its last slot) */
+__CPROVER_ensures(ST_SIZE(t) == 0 || p->slot < N_USE((Leaf*)p->leaf) || (p->leaf == (uint8_t*)TAILL(t) && p->slot == N_USE((Leaf*)p->leaf)))
 {
   if (which == 0) w_bt_lower_bound(t, k, (POS_T*)p); else if (which == 1) w_bt_upper_bound(t, k, (POS_T*)p);
   else if (which == 2) w_bt_find(t, k, (POS_T*)p); else if (which == 3) w_bt_begin(t, (POS_T*)p); else w_bt_end(t, (POS_T*)p);
